@@ -2,7 +2,7 @@
   C02 — the rewrite catalogue as syntactic functions on MiniJS programs.
 
   Every rewrite is applied EVERYWHERE it is applicable (all statement lists of the script body and
-  of every function body, at any nesting depth outside `switch` case lists); the side condition is
+  of every function body, at any nesting depth, including `switch` case lists); the side condition is
   decided per site by the rewrite itself, a site that fails it is left alone.  The generator's
   metamorphic variants INSERT dead code / no-op statements / blocks; the functions here go the other
   way (ELIMINATE), so `R (variant) = R (original)`-style facts plus `R_sound` license the comparison.
@@ -26,27 +26,46 @@ def startsValued : List Stmt → Bool
   | (.ret (some _)) :: _ => true
   | _ => false
 
-/-! ### dead_code_after_abrupt -/
+/-! ### The generic traversal: one pass over every statement list, deciding per position -/
+
+inductive Action where
+  | keep        -- keep the statement (rewritten inside), go on
+  | cutAfter    -- keep the statement, drop the rest of the list
+  | dropHead    -- drop the statement, go on
+  deriving DecidableEq
 
 mutual
-def dcS : Stmt → Stmt
-  | .block ss => .block (dcL ss)
-  | .ite c t e => .ite c (dcS t) (dcS e)
-  | .while c b => .while c (dcS b)
-  | .doWhile b c => .doWhile (dcS b) c
-  | .for i t u b => .for i t u (dcS b)
-  | .try b hc p cb hf fb => .try (dcL b) hc p (dcL cb) hf (dcL fb)
-  | .labeled l s => .labeled l (dcS s)
+def gS (act : Stmt → List Stmt → Action) : Stmt → Stmt
+  | .block ss => .block (gL act ss)
+  | .ite c t e => .ite c (gS act t) (gS act e)
+  | .while c b => .while c (gS act b)
+  | .doWhile b c => .doWhile (gS act b) c
+  | .for i t u b => .for i t u (gS act b)
+  | .try b hc p cb hf fb => .try (gL act b) hc p (gL act cb) hf (gL act fb)
+  | .labeled l s => .labeled l (gS act s)
+  | .switch e cs => .switch e (gC act cs)
   | s => s
-def dcL : List Stmt → List Stmt
+def gL (act : Stmt → List Stmt → Action) : List Stmt → List Stmt
   | [] => []
-  | s :: ss => if isAbrupt s && noDecls ss then [s] else dcS s :: dcL ss
+  | s :: ss =>
+    match act s ss with
+    | .keep => gS act s :: gL act ss
+    | .cutAfter => [gS act s]
+    | .dropHead => gL act ss
+def gC (act : Stmt → List Stmt → Action) : List Case → List Case
+  | [] => []
+  | (.mk t b) :: cs => .mk t (gL act b) :: gC act cs
 end
+
+/-! ### dead_code_after_abrupt -/
+
+def dcAct (s : Stmt) (ss : List Stmt) : Action :=
+  if isAbrupt s && noDecls ss then .cutAfter else .keep
 
 /-! ### elimination of no-op statements in front of a valued statement
     (`if(false){…}` dead branches, `(()=>x);` closure creations) -/
 
-/-- `if (false) S` without else, `S` declaring no `var` (S may contain `eval`/`with` = opaque). -/
+/-- `if (false) S` without else, `S` declaring no `var` (S may contain `eval`/`with` = outside). -/
 def isDeadIf : Stmt → Bool
   | .ite (.lit (.bool false)) t .empty => (varNamesS t).isEmpty
   | _ => false
@@ -56,20 +75,8 @@ def isNoopClosure : Stmt → Bool
   | .expr (.func _) => true
   | _ => false
 
-mutual
-def elS (p : Stmt → Bool) : Stmt → Stmt
-  | .block ss => .block (elL p ss)
-  | .ite c t e => .ite c (elS p t) (elS p e)
-  | .while c b => .while c (elS p b)
-  | .doWhile b c => .doWhile (elS p b) c
-  | .for i t u b => .for i t u (elS p b)
-  | .try b hc q cb hf fb => .try (elL p b) hc q (elL p cb) hf (elL p fb)
-  | .labeled l s => .labeled l (elS p s)
-  | s => s
-def elL (p : Stmt → Bool) : List Stmt → List Stmt
-  | [] => []
-  | s :: ss => if p s && startsValued ss then elL p ss else elS p s :: elL p ss
-end
+def elAct (p : Stmt → Bool) (s : Stmt) (ss : List Stmt) : Action :=
+  if p s && startsValued ss then .dropHead else .keep
 
 /-! ### Programs -/
 
@@ -78,9 +85,9 @@ def FunDef.mapBody (f : List Stmt → List Stmt) (fd : FunDef) : FunDef := { fd 
 def Prog.mapBodies (f : List Stmt → List Stmt) (P : Prog) : Prog :=
   { P with funs := P.funs.map (FunDef.mapBody f), body := f P.body }
 
-def deadCodeAfterAbrupt (P : Prog) : Prog := P.mapBodies dcL
-def ifFalseDeadBranch (P : Prog) : Prog := P.mapBodies (elL isDeadIf)
-def noopClosureCapture (P : Prog) : Prog := P.mapBodies (elL isNoopClosure)
+def deadCodeAfterAbrupt (P : Prog) : Prog := P.mapBodies (gL dcAct)
+def ifFalseDeadBranch (P : Prog) : Prog := P.mapBodies (gL (elAct isDeadIf))
+def noopClosureCapture (P : Prog) : Prog := P.mapBodies (gL (elAct isNoopClosure))
 
 /-! ### size (driver only: did the rewrite change anything?) -/
 mutual
